@@ -112,11 +112,17 @@ def _run(prop, tier, seed, only, known, stage, t0):
         full_mod = stage.inject(anchor, f, insts)
         for h in by_file.get(f, []):
             h.full = full_mod + "::" + h.name
+    for (hf, anchor, fn_name, new_name, impl_header) in getattr(prop, "duplicates", []):
+        if hf in stage.injected:
+            stage.append_to_harness(hf, stage.duplicate_fn(anchor, fn_name, new_name, impl_header))
+            notes.append("generated from the current source: copy of %s as %s (its recursive calls go to the stubbed original)" % (fn_name, new_name))
     jobs = []
+    # thorough: a quick-tier instance that cadical discharges in under KISSAT_CUTOFF seconds is decided a second
+    # time with kissat (an independent SAT back end) by the same worker; kissat is ~3x slower, so the heavy
+    # instances are decided once.  The evidence lists which runs were re-decided.
+    kissat_cutoff = float(os.environ.get("VERIF_KISSAT_CUTOFF", "60"))
     for h in hs:
         jobs.append((h, None))
-        if tier == "thorough" and h.kissat and h.tier == "quick":
-            jobs.append((h, "kissat"))
     rnd = random.Random(seed)
     rnd.shuffle(jobs)
     # longest first helps the tail; keep the shuffle as tie-break
@@ -143,11 +149,15 @@ def _run(prop, tier, seed, only, known, stage, t0):
             _save_log(prop, h, solver, r)
         log("  %-44s %-1s %-7s %-12s %6.1fs  checks=%d failed=%d %s" % (
             h.name, h.profile, r.solver, r.verdict, r.wall, r.n_checks, len(r.failed), r.reason))
-        return h, solver, r
+        out = [(h, solver, r)]
+        if (solver is None and tier == "thorough" and h.kissat and h.tier == "quick"
+                and r.verdict == "success" and r.wall < kissat_cutoff):
+            out.extend(work((h, "kissat")))
+        return out
 
     with cf.ThreadPoolExecutor(max_workers=workers) as ex:
-        for h, solver, r in ex.map(work, jobs):
-            results.append((h, solver, r))
+        for out in ex.map(work, jobs):
+            results.extend(out)
 
     # ---------------- classify ----------------
     violations, known_hits, inconclusive = [], [], []
@@ -314,7 +324,7 @@ def _write_evidence(prop, tier, seed, results, discharged, total_checks, violati
             "states": None,
             "explanation": "states/transitions are not enumerated: the state space is explored symbolically by the SAT solver",
             "technique": "bounded model checking of the compiled Rust (Kani 0.68 -> CBMC 6.11 -> CaDiCaL%s)" % (
-                ", re-decided with kissat" if tier == "thorough" else ""),
+                "; quick-tier instances cadical decided in under %.0f s re-decided with kissat" % float(os.environ.get("VERIF_KISSAT_CUTOFF", "60")) if tier == "thorough" else ""),
             "functions_encoded": crate_funcs[:400],
             "functions_encoded_count": len(crate_funcs),
             "harness_runs": per,
